@@ -107,9 +107,14 @@ package verifier
 // proof has the shape plonky2 demands and one query round per configured round is verified (VerifyFriProof's loop
 // calls verifyQueryRound in every iteration; what a round checks is C12/C13/C20).
 //@ func (c *VerifierChip) Verify(proof variables.Proof, publicInputs []gl.Variable, verifierData variables.VerifierOnlyCircuitData)
-//@   props C01 C17 C14
+//@   props C17 C14 C03 C04
 //@   circuit sound-only
 //@   requires vchip_ok(c)
+//@   ensures canonProof(proof)
+
+//@ func (c *VerifierChip) Verify(proof variables.Proof, publicInputs []gl.Variable, verifierData variables.VerifierOnlyCircuitData)
+//@   props C01
+//@   circuit sound-only
 //@   calls verifier.VerifierChip.rangeCheckProof verifier.VerifierChip.GetPublicInputsHash verifier.VerifierChip.GetChallenges plonk.PlonkChip.Verify fri.Chip.GetInstance fri.Chip.ToOpenings fri.Chip.VerifyFriProof
 //@   ghost pih poseidon.GoldilocksHashOut = callresult("verifier.VerifierChip.GetPublicInputsHash", 0)
 //@   ghost reduced []gl.Variable = callghost("verifier.VerifierChip.GetPublicInputsHash", 0, "reduced")
